@@ -57,11 +57,40 @@ def _run_one(scratch, h, timeout):
         out = (e.stdout or b"").decode("utf8", "replace") if isinstance(e.stdout, bytes) else (e.stdout or "")
         status = "timeout"
         subprocess.run(["pkill", "-f", "cbmc.*" + re.escape(h["name"])], capture_output=True)
+    playback = None
+    if status == "failed" and h.get("playback_input"):
+        # Kani's concrete counterexample: re-run with concrete playback and read the symbolic input back
+        try:
+            p2 = subprocess.run(cmd + ["-Z", "concrete-playback", "--concrete-playback=print"], cwd=os.path.join(scratch, "kani"), env=env,
+                                capture_output=True, text=True, timeout=timeout, preexec_fn=_limits)
+            playback = _input_from_playback(p2.stdout + p2.stderr, h["playback_input"])
+        except Exception:
+            playback = None
     m = re.search(r"\*\* (\d+) of (\d+) failed", out)
-    return {"name": h["name"], "status": status, "wall_s": round(time.time() - t0, 1), "kind": h["kind"],
+    return {"name": h["name"], "status": status, "playback_input_hex": playback, "wall_s": round(time.time() - t0, 1), "kind": h["kind"],
             "bound": h.get("bound", ""), "checks": int(m.group(2)) if m else None,
             "failed_checks": int(m.group(1)) if m else None, "cmd": " ".join(cmd),
             "tail": out[-1500:] if status != "success" else ""}
+
+
+def _input_from_playback(text, spec):
+    """first concrete-playback test of the output -> the harness' symbolic input as hex.
+    spec = {"bytes": N}: the harness draws `[u8; N]` and then a `usize` length n; the input is buf[..n]"""
+    i = text.find("let concrete_vals")
+    if i < 0:
+        return None
+    j = text.find("];", i)
+    vecs = re.findall(r"vec!\[([0-9,\s]*)\]", text[i:j])
+    vals = [[int(x) for x in v.replace(" ", "").split(",") if x] for v in vecs]
+    vals = [v for v in vals if v]
+    n = spec["bytes"]
+    if len(vals) < n + 1 or any(len(v) != 1 for v in vals[:n]) or len(vals[n]) != 8:
+        return None
+    buf = bytes(v[0] for v in vals[:n])
+    ln = int.from_bytes(bytes(vals[n]), "little")
+    if ln > n:
+        return None
+    return buf[:ln].hex()
 
 
 def run(pid, pcfg, tier, seed, workdir):
@@ -91,9 +120,23 @@ def run(pid, pcfg, tier, seed, workdir):
         if r["status"] == "failed":
             os.makedirs(driver.REPLAYS, exist_ok=True)
             path = os.path.join(driver.REPLAYS, f"{pid}-kani-{r['name']}-{int(time.time())}.json")
+            rec = {"property": pid, "kind": "kani", "harness": r["name"], "cmd": r["cmd"], "output_tail": r["tail"]}
+            found = False
+            if r.get("playback_input_hex") is not None:
+                # the verifier's own counterexample, replayed natively on the real code next to the specification
+                import finder
+                fr = finder.search(pid, case=r["playback_input_hex"])
+                rec["kani_counterexample_input"] = r["playback_input_hex"]
+                if fr and fr.get("found"):
+                    rec["kind"] = "failed-obligation"
+                    rec["failing_input"] = {"case": fr["case"], "expected": fr["expected"], "actual": fr["actual"],
+                                            "how": "Kani's concrete counterexample for harness " + r["name"] + ", replayed on the real code (finder/)"}
+                    rec["failed_obligations"] = []
+                    found = True
+                    driver.log(f"failing input (Kani counterexample): {fr['case'][:200]} expected: {fr['expected'][:200]} actual: {fr['actual'][:200]}")
             with open(path, "w") as f:
-                json.dump({"property": pid, "kind": "kani", "harness": r["name"], "cmd": r["cmd"], "output_tail": r["tail"]}, f, indent=1)
-            violations.append({"replay": path, "input_found": False, "harness": r["name"]})
+                json.dump(rec, f, indent=1)
+            violations.append({"replay": path, "input_found": found, "harness": r["name"]})
         elif r["status"] in ("timeout", "error"):
             undecided = f"harness {r['name']}: {r['status']} after {r['wall_s']}s"
     ev = {"harnesses": [{k: v for k, v in r.items() if k != "tail"} for r in results],
